@@ -656,6 +656,7 @@ func modelBinaryWrite(e *Engine, f *frame, st *State, args []Val, rt types.Type,
 		// writes to a bytes.Buffer cannot fail
 		e.assume(st, okc)
 	}
+	e.inMemoryDest(st, w, okc)
 	adv := c.Fresh("binwrite.adv", smt.BV(64))
 	var size *smt.Term
 	if n, ok := fixedSize(v.Typ); ok {
@@ -732,6 +733,7 @@ func modelWriterWrite(e *Engine, f *frame, st *State, recv Val, args []Val, rt t
 	key := streamKey(recv)
 	cnt := e.writerCount(st, key)
 	errv, okc := e.maybeError(st, errorType(), "write")
+	e.inMemoryDest(st, recv, okc)
 	n := c.Fresh("write.n", smt.BV(64))
 	e.assume(st, c.And(bvle(c, c.BVLit64(0, 64), n), bvle(c, n, p.Terms[2]), c.Implies(okc, c.Eq(n, p.Terms[2]))))
 	arr := e.heapArr(st, elemName(types.Typ[types.Uint8], 0), smt.Array(smt.Int, bytesInner))
@@ -853,6 +855,17 @@ func bytesPtrType(e *Engine, name string) types.Type {
 		}
 	}
 	panic("package bytes not loaded")
+}
+
+// inMemoryDest: writes to a *bytes.Buffer cannot fail (it grows, or panics with ErrTooLarge beyond the size bound).
+func (e *Engine) inMemoryDest(st *State, w Val, ok *smt.Term) {
+	c := e.C
+	if isInterface(w.Typ) {
+		isMem := c.Or(c.Eq(w.Terms[0], c.IntLit(int64(e.typeTag(bytesPtrType(e, "Buffer"))))), c.Eq(w.Terms[0], c.IntLit(int64(e.typeTag(bytesPtrType(e, "Reader"))))))
+		e.assume(st, c.Implies(isMem, ok))
+	} else if typeStr(w.Typ) == "*bytes.Buffer" {
+		e.assume(st, ok)
+	}
 }
 
 // inMemorySource: reading n bytes from a *bytes.Buffer or *bytes.Reader that holds at least n more bytes cannot fail
